@@ -47,3 +47,8 @@ CHECKS["C02"] = {
   "text": "For every accepted input x: y=print(parse(x)) is accepted by the parser, print(parse(y)) equals y byte for byte, and parse(x) and parse(y) are structurally identical under a bisimulation that pairs identity-bearing objects one-to-one. The domain gate (llvm-as accepts x) is evaluated lazily, only when a failure is seen.",
   "note": "Trusts the reflection walker (h/walk/bisim.go): exported fields only, lazily cached `Typ` fields that are nil on one side are ignored, value-like objects (constants, literal types) are compared structurally.",
 }
+CHECKS["C04"] = {
+  "technique": "property-based testing: rapid-generated reference-stress modules (plus llvm-stress/opt and testdata) parsed and walked by a reflection-based object-graph checker with an identity oracle (every reference must be the defining object)",
+  "text": "Every pointer to a global, function, alias, ifunc, comdat, attribute group, numbered metadata node or named type met anywhere in the parsed module must be the object the module lists under that name/ID; every parameter, block, instruction or terminator met as an operand must belong to the function being walked (for blockaddress: to the named function, so no translation-time dummy block survives); Parent links must agree with containment. Modules come from the typed generator (forward, mutual, self and cross-function references, cycles) rendered in shuffled order with spelling noise.",
+  "note": "Trusts the reflection walker in checks/c04 (exported fields). Wrong-but-existing bindings (a use bound to another object of the right kind) are detected by C01's canonical diff, not here. Inputs the parser rejects are judged by C01.",
+}
